@@ -208,6 +208,24 @@ func TestC07(t *testing.T) {
 				}
 			}
 			rec.Count("two-way-splits-tried", len(sc.Src)+1)
+			// every split with a middle read of 1..3 bytes: a token, an
+			// operator, an escape or a character spread over three reads
+			if thorough() || gen.Chance(t, 30, "threeway") {
+				for cut := 0; cut < len(sc.Src); cut++ {
+					for w := 1; w <= 3 && cut+w <= len(sc.Src); w++ {
+						c := caseC07{srcCase: sc, Kind: "three-way-split", Script: []readStep{{N: cut}, {N: w}}}
+						if cut == 0 {
+							c.Script = []readStep{{N: w}, {N: 1}}
+						}
+						f := &scriptFile{data: []byte(c.Src), script: c.Script, name: "f"}
+						fr := parseFileWatch(f, 20*time.Second)
+						if viol := compareChunked(whole, fr); viol != "" {
+							rec.Fail(t, c, "%s\nsource (reads %v): %q", viol, c.Script, c.Src)
+						}
+					}
+				}
+				rec.Count("three-way-splits-tried", 3*len(sc.Src))
+			}
 			rec.Case(len(sc.Src) > 3, harness.Hash(sc.Src, "allsplits"), "class:"+sc.Class, "partition:all-two-way-splits")
 			return
 		}
